@@ -382,6 +382,56 @@ func (g *Gen) indexExpr(d int) *Node {
 	return g.Expr(TInt, d)
 }
 
+// orderProbe builds one construct whose sub-expressions are each wrapped in a call of a function that prints a tag
+// and returns its argument, so the output shows the order (and number of times) in which they were evaluated.
+func (g *Gen) orderProbe() *Node {
+	tf, mv := g.fresh("f"), g.fresh("v")
+	def := &Node{K: KFunc, Name: tf, Params: []string{"t", "v"}, Body: []*Node{Bi("println", Id("t")), Id("v")}}
+	n := 0
+	tr := func(e *Node) *Node { n++; return Call(Id(tf), Lit(int64(n)), e) }
+	small := func() *Node { return Lit(int64(g.R.IntN(7) - 2)) }
+	var e *Node
+	switch g.R.IntN(10) {
+	case 0:
+		e = &Node{K: KSlice, Kids: []*Node{tr(g.Expr([]T{TArr, TStr}[g.R.IntN(2)], 1)), tr(small()), tr(small())}}
+	case 1:
+		e = &Node{K: KSlice, Kids: []*Node{g.Expr([]T{TArr, TStr}[g.R.IntN(2)], 1), tr(small()), tr([]*Node{small(), g.strLit(), g.floatLit()}[g.R.IntN(3)])}}
+	case 2:
+		e = Idx(tr(g.Expr([]T{TArr, TStr, TMap}[g.R.IntN(3)], 1)), tr(small()))
+	case 3:
+		op := []string{"+", "-", "*", "/", "<", "==", "&&", "||", "%", "!="}[g.R.IntN(10)]
+		if op == "&&" || op == "||" {
+			e = In(op, tr(Lit(g.chance(50))), In(op, tr(Lit(g.chance(50))), tr(Lit(g.chance(50)))))
+		} else {
+			e = In(op, tr(small()), In([]string{"+", "*", "-"}[g.R.IntN(3)], tr(small()), tr(small())))
+		}
+	case 4:
+		e = Call(Id(tf), tr(small()), tr(g.Expr(T(g.R.IntN(4)), 1)))
+	case 5:
+		e = MkArr(tr(small()), tr(g.Expr(T(g.R.IntN(4)), 1)), tr(small()))
+	case 6:
+		e = &Node{K: KMap, Kids: []*Node{tr(small()), tr(small()), tr(g.strLit()), tr(g.Expr(T(g.R.IntN(4)), 1))}}
+	case 7:
+		e = &Node{K: KIdxAssign, Name: mv, Kids: []*Node{tr(small()), tr(g.Expr(T(g.R.IntN(4)), 1))}}
+	case 8:
+		e = Bi([]string{"println", "print", "len", "first"}[g.R.IntN(4)], tr(g.Expr([]T{TArr, TStr}[g.R.IntN(2)], 1)))
+	default:
+		e = &Node{K: KParen, Kids: []*Node{{K: KIf, Kids: []*Node{tr(Lit(g.chance(50)))}, Body: []*Node{tr(small())}, HasElse: true, Else: []*Node{tr(small())}}}}
+	}
+	init := &Node{K: KMap}
+	if g.chance(50) {
+		g.declare(mv, TArr)
+		init = MkArr(small(), small(), small())
+	} else {
+		g.declare(mv, TMap)
+	}
+	// whether it failed and its value otherwise (an error's text is not compared)
+	rv := g.fresh("v")
+	failed := &Node{K: KDot, Kids: []*Node{Id(rv)}, Text: "err"}
+	val := &Node{K: KIf, Kids: []*Node{failed}, Body: []*Node{Lit(Nil{})}, Else: []*Node{{K: KDot, Kids: []*Node{Id(rv)}, Text: "value"}}, HasElse: true}
+	return &Node{K: KIf, Kids: []*Node{Lit(true)}, Body: []*Node{def, Assign(mv, init), Assign(rv, Bi("catch", e)), Bi("println", failed, val), Bi("println", Id(mv))}}
+}
+
 func (g *Gen) sliceExpr(t T, d int) *Node {
 	n := &Node{K: KSlice, Kids: []*Node{g.Expr(t, d-1), Lit(int64(g.R.IntN(8) - 3))}}
 	if g.chance(70) {
@@ -428,7 +478,9 @@ func (g *Gen) callExpr(t T, d int) *Node {
 
 // Stmt generates one statement (and updates the scope model).
 func (g *Gen) Stmt(d int) *Node { //nolint:gocyclo,funlen // grammar
-	switch g.R.IntN(31) {
+	switch g.R.IntN(32) {
+	case 31: // order of evaluation: every operand of a construct announces itself when it is evaluated
+		return g.orderProbe()
 	case 29: // arguments and elements are values at the time they are evaluated: a later one changes the variable
 		gv, hf, kf, ff := g.fresh("v"), g.fresh("f"), g.fresh("f"), g.fresh("f")
 		t := []T{TArr, TInt, TStr}[g.R.IntN(3)]
